@@ -140,7 +140,9 @@ pub fn guard<T>(op: &'static str, f: impl FnOnce() -> T) -> Out<T> {
         Ok(v) => Out::Ok(v),
         Err(_) => {
             let m = LAST_PANIC.with(|p| p.borrow_mut().take()).unwrap_or_else(|| "<no message>".into());
-            PANICS.with(|c| *c.borrow_mut().entry(format!("{op}: {m}")).or_insert(0) += 1);
+            // aggregated by call and panic location (messages may embed arbitrary input text)
+            let loc = m.rsplit(" @ ").next().unwrap_or("?").to_string();
+            PANICS.with(|c| *c.borrow_mut().entry(format!("{op} @ {loc}")).or_insert(0) += 1);
             event(format!("{op} -> PANIC {m}"));
             Out::Panic(m)
         },
